@@ -497,6 +497,76 @@ theorem simpson_eval_count_lower (f : Rat → Rat) (a b eps : Rat) (depth : Int)
       (f (if a > b then b else a)) (f (if a > b then a else b)) (f (((if a > b then b else a) + (if a > b then a else b)) / 2))
   omega
 
+/-! ## The result is a function of the integrand's values at the node set (evaluation order is free) -/
+
+theorem adaptive_congr_evals (f g : Rat → Rat) (n : Nat) :
+    ∀ a b eps S fa fb fc : Rat,
+      (∀ x ∈ (adaptive f a b eps S fa fb fc n).evals, f x = g x) →
+      adaptive f a b eps S fa fb fc n = adaptive g a b eps S fa fb fc n := by
+  have key : ∀ a b fa fb fc : Rat, f (dL a b) = g (dL a b) → f (eR a b) = g (eR a b) →
+      sLeft f a b fa fc = sLeft g a b fa fc ∧ sRight f a b fb fc = sRight g a b fb fc ∧
+      s2 f a b fa fb fc = s2 g a b fa fb fc := by
+    intro a b fa fb fc hd he
+    have hl : sLeft f a b fa fc = sLeft g a b fa fc := by
+      unfold sLeft; unfold dL at hd; rw [hd]
+    have hr : sRight f a b fb fc = sRight g a b fb fc := by
+      unfold sRight; unfold eR at he; rw [he]
+    exact ⟨hl, hr, by unfold s2; rw [hl, hr]⟩
+  induction n with
+  | zero =>
+    intro a b eps S fa fb fc hev
+    rw [adaptive_zero] at hev
+    obtain ⟨_, _, h2⟩ := key a b fa fb fc (hev _ (by simp)) (hev _ (by simp))
+    rw [adaptive_zero, adaptive_zero]
+    unfold mkPanel
+    rw [h2]
+  | succ n ih =>
+    intro a b eps S fa fb fc hev
+    by_cases h : Lp.rabs (s2 f a b fa fb fc - S) ≤ K.accFactor * eps
+    · rw [adaptive_succ_accept f _ _ _ _ _ _ _ _ h] at hev
+      obtain ⟨_, _, h2⟩ := key a b fa fb fc (hev _ (by simp)) (hev _ (by simp))
+      rw [adaptive_succ_accept f _ _ _ _ _ _ _ _ h, adaptive_succ_accept g _ _ _ _ _ _ _ _ (h2 ▸ h)]
+      unfold mkPanel
+      rw [h2]
+    · rw [adaptive_succ_reject f _ _ _ _ _ _ _ _ h] at hev
+      simp only [] at hev
+      have hd := hev (dL a b) (by simp)
+      have he := hev (eR a b) (by simp)
+      obtain ⟨hl, hr, h2⟩ := key a b fa fb fc hd he
+      rw [adaptive_succ_reject f _ _ _ _ _ _ _ _ h, adaptive_succ_reject g _ _ _ _ _ _ _ _ (h2 ▸ h)]
+      simp only []
+      rw [ih a (mid a b) _ _ fa fc _ (fun x hx => hev x (by simp only [List.mem_cons, List.mem_append]; exact Or.inr (Or.inr (Or.inl hx)))),
+          ih (mid a b) b _ _ fc fb _ (fun x hx => hev x (by simp only [List.mem_cons, List.mem_append]; exact Or.inr (Or.inr (Or.inr hx))))]
+      unfold mkPanel
+      rw [hd, he, hl, hr, h2]
+
+/-- **integrate_congr_on_evals**: the whole run (value, warning, panels, node list) is determined by the
+    integrand's values at the nodes of the run itself: an integrand that agrees with `f` on the abscissae
+    `f`'s run evaluates gives the identical run. -/
+theorem integrate_congr_on_evals (f g : Rat → Rat) (a b eps : Rat) (depth : Int)
+    (hfg : ∀ x ∈ (integrate f a b eps depth).evals, f x = g x) :
+    integrate f a b eps depth = integrate g a b eps depth := by
+  unfold integrate at hfg ⊢
+  by_cases hab : a = b
+  · rw [if_pos hab, if_pos hab]
+  · rw [if_neg hab] at hfg ⊢
+    rw [if_neg hab]
+    simp only [] at hfg ⊢
+    have h1 := hfg (if a > b then b else a) (by simp)
+    have h2 := hfg (if a > b then a else b) (by simp)
+    have h3 := hfg (((if a > b then b else a) + (if a > b then a else b)) / 2) (by simp)
+    have h4 := adaptive_congr_evals f g depth.toNat _ _ _ _ _ _ _
+      (fun x hx => hfg x (by simp only [List.mem_cons]; exact Or.inr (Or.inr (Or.inr hx))))
+    rw [h4, h1, h2, h3]
+
+/-- **integrate_evals_perm**: the order in which the nodes are visited is immaterial: agreement on any
+    permutation `l` of the node list suffices (the property constrains where and how often the integrand is
+    evaluated, not in which order; the correspondence compares the sorted multiset of abscissae). -/
+theorem integrate_evals_perm (f g : Rat → Rat) (a b eps : Rat) (depth : Int) (l : List Rat)
+    (hp : l.Perm (integrate f a b eps depth).evals) (hfg : ∀ x ∈ l, f x = g x) :
+    integrate f a b eps depth = integrate g a b eps depth :=
+  integrate_congr_on_evals f g a b eps depth (fun x hx => hfg x (hp.mem_iff.mpr hx))
+
 /-! ## Non-vacuity: concrete instances meeting the hypotheses -/
 
 /-- the hypotheses of `simpson_regular_4eps` are met by `x⁴` (constant fourth derivative 24:
